@@ -79,7 +79,7 @@ class Summary:
 
     @property
     def complete(self):
-        return not any(n.startswith('STOP') or 'loop cap' in n for n in self.notes)
+        return not any(n.startswith('STOP') or 'loop cap' in n or 'opaque iterator' in n for n in self.notes)
 
 
 class Ctx:
